@@ -1160,21 +1160,29 @@ def o4(h):
     _rest(h, REST_QUICK)
 
 
-def _o4_j2(kin, tag):
-    @obligation(P, 'O4.reference_state_j2_%s' % tag, cap=400)
-    def ob(h):
-        h.bounds(BOUNDS_REST)
-        h.outside('power-law rate sensitivity (dt-dependent kinetic potential): thorough tier, O4.reference_state_j2_rate')
-        _rest(h, [k for k in REST_J2 if k.startswith('j2plastic[%s,' % kin)])
-    ob.__doc__ = ('reference state of J2Plastic, kinematics option %r x 3 hardening laws (linear, voce, power law); the yield switch at rest is '
-                  'decided by the solver (the plastic branch is an uninterpreted function)' % kin)
-    core_ob = [o for o in __import__('vf.core', fromlist=['REG']).REG[P] if o.name == 'O4.reference_state_j2_%s' % tag][0]
-    core_ob.doc = ob.__doc__
-    return ob
+def _o4_j2(h, kin):
+    h.bounds(BOUNDS_REST)
+    h.outside('power-law rate sensitivity (dt-dependent kinetic potential): thorough tier, O4.reference_state_j2_rate')
+    _rest(h, [k for k in REST_J2 if k.startswith('j2plastic[%s,' % kin)])
 
 
-for _kin, _tag in (('large deformations', 'large'), ('small deformations', 'small'), ('seth hill', 'seth_hill')):
-    _o4_j2(_kin, _tag)
+@obligation(P, 'O4.reference_state_j2_large', cap=400)
+def o4_j2_large(h):
+    """reference state of J2Plastic, kinematics 'large deformations' x hardening (linear, voce, power law); the yield
+    switch at rest is decided by the solver (the plastic branch is an uninterpreted function)"""
+    _o4_j2(h, 'large deformations')
+
+
+@obligation(P, 'O4.reference_state_j2_small', cap=400)
+def o4_j2_small(h):
+    """reference state of J2Plastic, kinematics 'small deformations' x hardening (linear, voce, power law)"""
+    _o4_j2(h, 'small deformations')
+
+
+@obligation(P, 'O4.reference_state_j2_seth_hill', cap=400)
+def o4_j2_seth(h):
+    """reference state of J2Plastic, kinematics 'seth hill' x hardening (linear, voce, power law)"""
+    _o4_j2(h, 'seth hill')
 
 
 @obligation(P, 'O2.isotropy_inplane_rotated_state', tiers=('thorough',), cap=900)
